@@ -51,10 +51,20 @@ Batch(e) ==
        IF \E i \in 1..Len(e.outs) :
             Proj(e.outs[i]) # WMulNat(Cv, MulMod(e.scalars[i], RRinv, ROrder), P) THEN {"value"} ELSE {}
 
+\* a large batch of which a sample of indices is logged
+BatchSampled(e) ==
+  IF Panicked(e) THEN {"panic"}
+  ELSE IF e.nouts # e.n THEN {"length"}
+  ELSE IF \E i \in 1..Len(e.outs) : ~Canon(e.outs[i]) THEN {"noncanonical"}
+  ELSE LET P == Proj(e.P) IN
+       IF \E i \in 1..Len(e.outs) :
+            Proj(e.outs[i]) # WMulNat(Cv, MulMod(e.scalars[i], RRinv, ROrder), P) THEN {"value"} ELSE {}
+
 Judge(e) ==
   CASE e.op \in {"ScalarMultiplication", "ScalarMultiplicationBase", "mulWindowed", "mulGLV"} -> Single(e)
     [] e.op \in {"JointScalarMultiplication", "JointScalarMultiplicationBase"} -> Joint(e)
     [] e.op = "BatchScalarMultiplication" -> Batch(e)
+    [] e.op = "BatchScalarMultiplication.sampled" -> BatchSampled(e)
     [] OTHER -> {"unknown-op"}
 
 Init == KInit
